@@ -5,9 +5,11 @@ EXTENDS Decode, SequencesExt, Json, IOUtils, TLC
 Res == ndJsonDeserialize(IOEnv.OBS)
 N == Len(Res)
 AllTargets == Targets @@ [ optI64 |-> OptT(Targets.i64), optU8 |-> OptT(Targets.u8), optStr |-> OptT(StrT), vecI64 |-> VecT(Targets.i64),
-                           vecOptI64 |-> VecT(OptT(Targets.i64)), tupI64 |-> Tup2T(Targets.i64), vecVecI64 |-> VecT(VecT(Targets.i64)) ]
+                           vecOptI64 |-> VecT(OptT(Targets.i64)), tupI64 |-> Tup2T(Targets.i64), vecVecI64 |-> VecT(VecT(Targets.i64)),
+                           tup3I64 |-> TupT(3, Targets.i64), arr2I64 |-> TupT(2, Targets.i64), vecTupI64 |-> VecT(TupT(2, Targets.i64)), optTupU8 |-> OptT(TupT(2, Targets.u8)) ]
 Key(n) == CASE n = "optI64" -> "Option<i64>" [] n = "optU8" -> "Option<u8>" [] n = "optStr" -> "Option<String>" [] n = "vecI64" -> "Vec<i64>"
-            [] n = "vecOptI64" -> "Vec<Option<i64>>" [] n = "tupI64" -> "(i64,i64)" [] n = "vecVecI64" -> "Vec<Vec<i64>>" [] OTHER -> n
+            [] n = "vecOptI64" -> "Vec<Option<i64>>" [] n = "tupI64" -> "(i64,i64)" [] n = "vecVecI64" -> "Vec<Vec<i64>>"
+            [] n = "tup3I64" -> "(i64,i64,i64)" [] n = "arr2I64" -> "[i64;2]" [] n = "vecTupI64" -> "Vec<(i64,i64)>" [] n = "optTupU8" -> "Option<(u8,u8)>" [] OTHER -> n
 VARIABLES i, ph
 Init == i \in 1..N /\ ph = 0
 Next == ph = 0 /\ ph' = 1 /\ i' = i
